@@ -166,6 +166,10 @@ class Built:
         # post(): {label: schema} that exist only after the calls ran (the
         # schema a model class compiled and cached on first use)
         self.post = None
+        # alt: {explanation: [thunk per thread]} reference outcomes of the
+        # same calls on a twin schema (mechanism classifier only)
+        self.alt = None
+        self.note = None
 
     def add(self, label, thunk):
         self.labels.append(label)
@@ -182,6 +186,7 @@ class Built:
              "cfg.keep_cached_dataframe": c.keep_cached_dataframe}
         for k, v in proc_state(full=False).items():
             d["proc." + k] = v
+        d["proc.numpy.random.state"] = rng_state()
         for lab, s in self.schemas.items():
             cols = getattr(s, "columns", None)
             if isinstance(cols, dict):
@@ -640,6 +645,255 @@ def pd_defaults_object(rng, n, variant=0):
     return b
 
 
+# ------------------------------------------------------------------ parsers
+# user parsers: pure functions of their argument (module level, so that the
+# schema fingerprints are stable); nothing of theirs is shared between threads
+def _p_normalise(df):
+    """amounts are stored as magnitudes, codes in upper case"""
+    return df.assign(amount=df["amount"].abs(), code=df["code"].str.upper())
+
+
+def _p_total(df):
+    return df.assign(total=df["amount"] * df["qty"])
+
+
+def _p_clip_qty(df):
+    return df.assign(qty=df["qty"].clip(lower=0))
+
+
+def _p_sort(df):
+    return df.sort_values("qty", kind="stable").reset_index(drop=True)
+
+
+def _p_round(s):
+    return s.round(1)
+
+
+def _p_strip(s):
+    return s.str.strip()
+
+
+def _p_abs_element(x):
+    return abs(x)
+
+
+def pd_shared_df_parsers(rng, n, variant=0):
+    """ONE pandas schema object with dataframe-level parsers (a list of
+    ``Parser`` on a DataFrameSchema / ``@dataframe_parser`` methods of a
+    DataFrameModel), optionally column-level and element-wise parsers too,
+    used by all threads on different frames.  The parsers normalise values
+    and derive a column; in the ``dependent`` shapes the checks / the required
+    columns only pass on parsed data, in the ``plain`` shapes the outcome is
+    the parsed frame that is returned.  ``alt``: the outcomes of the same
+    calls with a twin schema WITHOUT the dataframe-level parsers (reference
+    for the mechanism classifier only)."""
+    import pandera as pa
+    shapes = ("schema_dependent", "model_dependent", "schema_plain",
+              "schema_column_parsers", "model_plain", "series_parsers")
+    # variant 0: the core shape; every other variant draws its shape
+    kind = shapes[0] if variant == 0 else rng.choice(shapes)
+    dependent = kind.endswith("dependent") or kind == "schema_column_parsers"
+    pool = [_p_normalise, _p_total]
+    extra = [p for p in (_p_clip_qty, _p_sort) if rng.random() < 0.4]
+    rng.shuffle(extra)
+    # normalise and total keep their order (total uses the magnitudes)
+    at = rng.randint(0, 2)
+    fns = pool[:at] + extra + pool[at:]
+    coerce = rng.random() < 0.3
+    strict = rng.random() < 0.4
+    col_parsers = kind == "schema_column_parsers"
+
+    def mk(with_df_parsers):
+        use = fns if with_df_parsers else []
+        if kind.startswith("model"):
+            ann = {"amount": float, "qty": int, "code": str}
+            if dependent:
+                ann["total"] = float
+            ns = {"__annotations__": ann, "__module__": __name__,
+                  "Config": type("Config", (), {"strict": strict,
+                                                "coerce": coerce})}
+            if dependent:
+                ns["amount"] = pa.Field(ge=0)
+                ns["code"] = pa.Field(isin=["A", "B"])
+            for k, fn in enumerate(use):
+                def meth(cls, df, _fn=fn):
+                    return _fn(df)
+                meth.__name__ = meth.__qualname__ = f"dfp{k}_{fn.__name__}"
+                ns[meth.__name__] = pa.dataframe_parser(meth)
+            if rng_model_col_parser:
+                def round_amount(cls, s):
+                    return _p_round(s)
+                ns["round_amount"] = pa.parser("amount")(round_amount)
+            # the twin carries the same name (error messages name the schema)
+            M = type(f"P_{kind}", (pa.DataFrameModel,), ns)
+            M.to_schema()          # compiled here: first use is another family
+            return M
+        if kind == "series_parsers":
+            return None
+        chk = dependent
+        cols = {
+            "amount": pa.Column(
+                float, pa.Check.ge(0) if chk else None,
+                parsers=([pa.Parser(_p_round)] if col_parsers else None)),
+            "qty": pa.Column(
+                int, parsers=([pa.Parser(_p_abs_element, element_wise=True)]
+                              if col_parsers and elementwise else None)),
+            "code": pa.Column(
+                str, pa.Check.isin(["A", "B"]) if chk else None,
+                parsers=([pa.Parser(_p_strip)] if col_parsers else None)),
+        }
+        if chk:
+            cols["total"] = pa.Column(float)
+        return pa.DataFrameSchema(cols, parsers=[pa.Parser(f) for f in use],
+                                  coerce=coerce, strict=strict and chk)
+
+    rng_model_col_parser = rng.random() < 0.4
+    elementwise = rng.random() < 0.5
+    frames = {
+        "one": pd.DataFrame({"amount": [-1.54, 2.0], "qty": [2, 3],
+                             "code": ["a", "B"]}),
+        "two": pd.DataFrame({"amount": [4.0, -0.52, 1.0], "qty": [1, 1, 2],
+                             "code": ["b", "b", "a"]}),
+        "already_normal": pd.DataFrame({"amount": [0.5, 2.5], "qty": [3, 1],
+                                        "code": ["A", "B"]}),
+        "bad_code": pd.DataFrame({"amount": [1.0, -1.0], "qty": [1, 2],
+                                  "code": ["a", "x"]}),
+        "no_qty": pd.DataFrame({"amount": [1.0, -1.0], "code": ["a", "b"]}),
+    }
+    order = ["one", rng.choice(["two", "two", "bad_code", "already_normal"]),
+             rng.choice(["bad_code", "no_qty", "already_normal", "two"])]
+    lazies = [rng.random() < 0.3, rng.random() < 0.5, rng.random() < 0.5]
+    b = Built()
+    if kind == "series_parsers":
+        # SeriesSchema: the parsers of the one shared schema object
+        def mks(with_parsers):
+            ps = [pa.Parser(_p_round)] if with_parsers else []
+            if with_parsers and elementwise:
+                ps.insert(0, pa.Parser(_p_abs_element, element_wise=True))
+            return pa.SeriesSchema(float, pa.Check.ge(-0.05), parsers=ps,
+                                   name="amount", coerce=coerce)
+        s, twin = mks(True), mks(False)
+        objs = [frames[k]["amount"] for k in order]
+        b.schemas["S"] = s
+        b.alt = {"series-level-parsers-not-applied": []}
+        for i in range(n):
+            b.add(f"SS.validate({order[i]}.amount) lazy={lazies[i]}",
+                  _v(s, objs[i], lazy=lazies[i]))
+            b.alt["series-level-parsers-not-applied"].append(
+                _v(twin, objs[i], lazy=lazies[i]))
+        b.note = "parsers:series_parsers"
+        return b
+    s, twin = mk(True), mk(False)
+    b.schemas["S"] = s.to_schema() if kind.startswith("model") else s
+    b.alt = {"dataframe-level-parsers-not-applied": []}
+    for i in range(n):
+        b.add(f"S.validate({order[i]}) lazy={lazies[i]}",
+              _v(s, frames[order[i]], lazy=lazies[i]))
+        b.alt["dataframe-level-parsers-not-applied"].append(
+            _v(twin, frames[order[i]], lazy=lazies[i]))
+    b.note = f"parsers:{kind}"
+    return b
+
+
+# ------------------------------------------------------------------ subsample
+def rng_state():
+    """Identity of the state of numpy's process-wide legacy generator (what
+    ``obj.sample(n)`` without ``random_state`` draws from).  Witness for the
+    classifier and a target for directed preemption; never judged: an
+    un-seeded ``sample=`` legitimately advances it."""
+    import zlib
+
+    import numpy as np
+    st = np.random.get_state(legacy=True)
+    return f"{zlib.crc32(st[1].tobytes()):08x}/{st[2]}"
+
+
+def pd_subsample(rng, n, variant=0):
+    """validate(..., head= / tail= / sample=, random_state=): the rows looked
+    at are fixed by the arguments, so every call has one reproducible outcome.
+    Frames are built so that the outcome tells which rows were drawn: a single
+    offending row inside / outside the rows ``random_state`` selects, or only
+    offending rows with distinct values (the failure cases name the sample).
+    The threads use one schema object or one each (the state a sampling
+    validation could share is not in the schema)."""
+    import pandera as pa
+    N = rng.randint(12, 24)
+    k = rng.randint(2, 5)
+
+    def mk():
+        return pa.DataFrameSchema({"v": pa.Column(int, pa.Check.ge(0)),
+                                   "g": pa.Column(str)})
+    shared = rng.random() < 0.5
+    S1 = mk()
+    S2 = S1 if shared else mk()
+    SS = pa.SeriesSchema(int, pa.Check.ge(0), name="v")
+
+    def picked(n_rows, k_, seed):
+        return set(pd.Series(range(n_rows)).sample(
+            k_, random_state=seed).tolist())
+
+    def frame(vals):
+        return pd.DataFrame({"v": vals, "g": ["x"] * len(vals)})
+
+    def single_bad(seed, inside):
+        sel = picked(N, k, seed)
+        pos = [i for i in range(N) if (i in sel) == inside]
+        vals = list(range(N))
+        vals[rng.choice(pos)] = -7
+        return frame(vals)
+    fine = frame(list(range(N)))
+    all_bad = frame([-(i + 1) for i in range(N)])
+    sA, sB, sC = rng.sample(range(0, 50), 3)
+    shape = "in_vs_fine" if variant == 0 else \
+        rng.choice(["in_vs_fine", "out_vs_allbad", "in_vs_unseeded",
+                    "allbad_vs_series", "headtail_vs_allbad"])
+    b = Built()
+    b.schemas.update({"S1": S1, "SS": SS} | ({} if shared else {"S2": S2}))
+    k2 = rng.randint(2, 5)
+    if shape == "in_vs_fine":
+        b.add(f"S1.validate(one bad row inside the sample, sample={k}, "
+              f"random_state={sA})", _v(S1, single_bad(sA, True), sample=k,
+                                        random_state=sA))
+        b.add(f"S2.validate(fine, sample={k2}, random_state={sB})",
+              _v(S2, fine, sample=k2, random_state=sB))
+    elif shape == "out_vs_allbad":
+        b.add(f"S1.validate(one bad row outside the sample, sample={k}, "
+              f"random_state={sA})", _v(S1, single_bad(sA, False), sample=k,
+                                        random_state=sA))
+        b.add(f"S2.validate(all bad, sample={k2}, random_state={sB}) lazy",
+              _v(S2, all_bad, sample=k2, random_state=sB, lazy=True))
+    elif shape == "in_vs_unseeded":
+        # the un-seeded call validates a frame without offending rows: its
+        # outcome does not depend on the rows drawn
+        inside = rng.random() < 0.5
+        b.add(f"S1.validate(one bad row {'in' if inside else 'out'}side the "
+              f"sample, sample={k}, random_state={sA}) lazy",
+              _v(S1, single_bad(sA, inside), sample=k, random_state=sA,
+                 lazy=True))
+        b.add(f"S2.validate(fine, sample={k2}) un-seeded",
+              _v(S2, fine, sample=k2))
+    elif shape == "allbad_vs_series":
+        b.add(f"S1.validate(all bad, sample={k}, random_state={sA})",
+              _v(S1, all_bad, sample=k, random_state=sA))
+        b.add(f"SS.validate(all bad series, sample={k2}, random_state={sB}) "
+              "lazy", _v(SS, all_bad["v"], sample=k2, random_state=sB,
+                         lazy=True))
+    else:
+        b.add(f"S1.validate(all bad, head=1, tail=2, sample={k}, "
+              f"random_state={sA}) lazy",
+              _v(S1, all_bad, head=1, tail=2, sample=k, random_state=sA,
+                 lazy=True))
+        b.add(f"S2.validate(all bad, sample={k2}, random_state={sB})",
+              _v(S2, all_bad, sample=k2, random_state=sB))
+    if n == 3:
+        b.add(f"SS.validate(all bad series, tail=1, sample={k}, "
+              f"random_state={sC}) lazy",
+              _v(SS, all_bad["v"], tail=1, sample=k, random_state=sC,
+                 lazy=True))
+    b.note = f"subsample:{shape}"
+    return b
+
+
 # ------------------------------------------------------------------ registries
 def model_first_use(rng, n, variant=0):
     """First use of a DataFrameModel class by all threads at once (to_schema
@@ -823,8 +1077,12 @@ SCENARIOS = {
     "pd_shared_tz_agnostic": (pd_shared_tz_agnostic, {"pandas_shared": True}),
     "mixed_builtin_dispatch": (mixed_builtin_dispatch, {"config": True}),
     "pd_defaults_object": (pd_defaults_object, {}),
+    "pd_shared_df_parsers": (pd_shared_df_parsers, {"pandas_shared": True,
+                                                    "parsers": True}),
+    "pd_subsample": (pd_subsample, {"subsample": True}),
 }
-TAKES_VARIANT = {"model_first_use", "pd_defaults_object"}
+TAKES_VARIANT = {"model_first_use", "pd_defaults_object",
+                 "pd_shared_df_parsers", "pd_subsample"}
 ORDER = list(SCENARIOS)
 
 
